@@ -132,6 +132,15 @@ theorem ks_rowsHiddenLoop (sheet : Nat) (w : Bool) : ∀ (n : Nat) (c : Int) (b 
       · exact KS.refl b
       · next b' hb => exact (ks_mSetRowHidden hb).trans (ks_rowsHiddenLoop sheet w n _ _ _)
 
+theorem ks_mMoveRows {b b' : Book} {sheet : Nat} {row count delta : Int}
+    (h : mMoveRows b sheet row count delta = .ok b') : KS b b' := by
+  unfold mMoveRows at h
+  repeat' split at h
+  all_goals first
+    | (cases h; done)
+    | (injection h with h; subst h; exact KS.refl _)
+    | (injection h with h; subst h; rename_i hs; exact ks_setSheet hs rfl rfl)
+
 theorem ks_ofLoop {b : Book} {l : LoopOut} (h : KS b l.b) : KS b (ofLoop l).w := by
   unfold ofLoop; split <;> exact h
 
@@ -216,6 +225,12 @@ theorem ks_doOp (env : Env) (b : Book) (o : Op) (hk : keepsSheets o = true) :
     split
     · exact KS.refl b
     · exact ks_ofLoop (ks_rowsHiddenLoop s w _ _ _ _)
+  | moveRows s r n d =>
+    simp only [doOp]
+    rcases moveRows_cases b s r n d with h1 | ⟨e', h1⟩ | ⟨b', nd, hm, h1⟩
+    · rw [h1]; exact KS.refl b
+    · rw [h1]; exact KS.refl b
+    · rw [h1]; exact ks_mMoveRows hm
 
 end IronCalc.User
 
